@@ -2,17 +2,21 @@
 use super::src_trait::Src;
 
 pub const TLEN: usize = 4;
+pub const TMAX: usize = 6;
 
 #[derive(Clone, Copy, Debug)]
 pub struct C12 {
-    pub text: [u8; TLEN],
+    /// the first `n` bytes are the text
+    pub text: [u8; TMAX],
+    pub n: usize,
     pub pos: usize,
 }
 
-pub fn draw<S: Src>(s: &mut S) -> C12 {
-    let mut text = [0u8; TLEN];
+/// `n` (<= TMAX) is a constant of the harness instance
+pub fn draw<S: Src>(s: &mut S, n: usize) -> C12 {
+    let mut text = [0u8; TMAX];
     let mut i = 0;
-    while i < TLEN {
+    while i < n && i < TMAX {
         // letters, and the line-ending bytes the grammar knows about
         let c = s.below(4);
         text[i] = match c {
@@ -23,8 +27,8 @@ pub fn draw<S: Src>(s: &mut S) -> C12 {
         };
         i += 1;
     }
-    let pos = s.below(TLEN as u8 + 1) as usize;
-    C12 { text, pos }
+    let pos = s.below(n as u8 + 1) as usize;
+    C12 { text, n, pos }
 }
 
 /// the line of `text` that contains byte offset `pos` (lines are separated by '\n'), as
